@@ -19,6 +19,12 @@ theorem kits_flat : kits.all (fun r => flatGroups r.pat false) = true := by deci
 theorem kits_three_groups : kits.all (fun r => nmarks r.pat == 6) = true := by decide +kernel
 /-- every kit class is cut-aligned with respect to its own cutter (hand-written structures included) -/
 theorem kits_cutAligned : kits.all (fun r => cutAligned (KitRow.geom r) r.pat) = true := by decide +kernel
+/-- every bundled vector type that embeds the next level's sites has the next-level layout for the cutter of
+the kit's next-level module class -/
+theorem kits_nextLevel : nextLevelPairs.all (fun ij =>
+    match kits[ij.1]?, kits[ij.2]? with
+    | some v, some m => nextLevelOK (KitRow.geom m) v.k v.pat && (m.pat == moduleStructure (KitRow.geom m))
+    | _, _ => false) = true := by decide +kernel
 theorem kits_count : 85 ≤ kits.length := by decide +kernel
 
 end Moclo.Tables
